@@ -3,18 +3,19 @@
 -/
 import BBModel
 import Driver.Proto
+import Std.Data.HashMap
 
 open BB BB.Proto
 
 structure DState where
-  expTab : List (Nat × Rat) := []
+  expTab : Std.HashMap Nat Rat := {}
   off : Rat := 0
   est : Option Est := none
   /-- a missing exp-table entry was needed -/
   expMiss : Bool := false
 
 def DState.X (d : DState) : ExpTab :=
-  { E := fun n => ((d.expTab.find? (fun p => p.1 == n)).map (·.2)).getD (-1), off := d.off }
+  { E := fun n => (d.expTab.get? n).getD (-1), off := d.off }
 
 def showErr : Option Err → String
   | none => "ok"
@@ -106,7 +107,7 @@ def handle (d : DState) (line : String) : DState × String :=
           match p.splitOn ":" with
           | [n, r] => do pure ((← n.toNat?), (← parseRat r))
           | _ => none) with
-      | some off, some tab => ({ d with expTab := tab, off := off }, "ok")
+      | some off, some tab => ({ d with expTab := Std.HashMap.ofList tab, off := off }, "ok")
       | _, _ => bad
     | "NEW" =>
       match (kv args "thr").bind parseRat, (kv args "bf").bind String.toNat?,
